@@ -105,6 +105,24 @@ fn c16_receiving_schedule() {
     kani::cover!(matches!(o.first_result, Some(Ok(Some(_)))), "frame delivered to the waiter");
 }
 
+/// Concrete witness of #14 alone (no symbolic input: replayed natively as is): the task polls the
+/// fresh receiver (Pending), then the frame arrives: nobody is woken, because poll never stored
+/// the waker (`_cx` is unused in the `Pending` arm of `<Receiving<F> as Future>::poll`).
+#[kani::proof]
+#[kani::unwind(6)]
+fn c16_receiving_waker_not_stored_witness() {
+    let mut st: Receiving<u8> = Receiving::Pending;
+    let w = waker(0);
+    let mut cx = Context::from_waker(&w);
+    let r = Pin::new(&mut st).poll(&mut cx);
+    assert!(r.is_pending());
+    let before = wakes(0);
+    st.recv_frame(7);
+    kani::cover!(true, "reached");
+    assert!(wakes(0) == before + 1, "the frame's arrival wakes the task that polled before it");
+    core::mem::forget(st);
+}
+
 /// Minimal witness of #14b alone: a frame that arrives after reset() re-opens the receiver
 /// (`mem::take` leaves `Pending`, the `_ => ()` arm does not restore the state).
 #[kani::proof]
